@@ -79,7 +79,8 @@ def cases(draw, steps=40):
     kind = draw(st.sampled_from(["euler", "correlated", "correlated", "mass"]))
     if kind == "euler":
         m = draw(models.model_specs(names="ident", n_state=(1, 3), n_control=(0, 2), n_calib=(0, 1), n_sensors=(1, 2),
-                                    n_readings=(1, 2), depth=2, sensor_depth=1, euler="bounded", innovation=("none", "k")))
+                                    n_readings=(1, 2), depth=2, sensor_depth=1, euler="bounded", innovation=("none", "k"),
+                                    allow_positive=False))
     elif kind == "correlated":
         m = draw(correlated_model())
     else:
